@@ -1334,3 +1334,19 @@ mod tests {
         }
     }
 }
+
+/// Verification hooks (compiled only with `--cfg maidsafe_safe_network_verif`): the external /verif
+/// harness plays the event loop of several real drivers in one process, so it takes the queued
+/// commands off a driver's own receivers instead of `run` doing it.
+#[cfg(maidsafe_safe_network_verif)]
+impl SwarmDriver {
+    /// Next queued `NetworkSwarmCmd`, if any (what `run` would take off `network_cmd_receiver`).
+    pub fn verif_try_recv_network_cmd(&mut self) -> Option<NetworkSwarmCmd> {
+        self.network_cmd_receiver.try_recv().ok()
+    }
+
+    /// Next queued `LocalSwarmCmd`, if any (what `run` would take off `local_cmd_receiver`).
+    pub fn verif_try_recv_local_cmd(&mut self) -> Option<LocalSwarmCmd> {
+        self.local_cmd_receiver.try_recv().ok()
+    }
+}
